@@ -1,3 +1,4 @@
+import MpsProps.Anchors.C03
 import Mps.Judge
 import MpsProps.Src.SrcCmpKeygen
 import MpsProps.Src.SrcCmpSign
